@@ -28,7 +28,8 @@ func vspecArtsEq(a, b map[string]HashObj) bool {
 
 // vhArtsNilable: an artifact map may also be nil (a link whose JSON says "materials": null) or empty
 var vhArtsNilable bool
-var vhArtsConcrete bool // with vhArtsNilable: only the shape (nil / empty / one artifact) is symbolic
+var vhArtsEmptyHash bool // an artifact may carry an empty hash object
+var vhArtsConcrete bool  // with vhArtsNilable: only the shape (nil / empty / one artifact) is symbolic
 
 func vhSmallArts(tag string) map[string]HashObj {
 	if vhArtsNilable {
@@ -41,6 +42,10 @@ func vhSmallArts(tag string) map[string]HashObj {
 		if vhArtsConcrete {
 			return map[string]HashObj{"f-" + tag: {"sha256": "11"}}
 		}
+	}
+	if vhArtsEmptyHash && vChoice(tag+".no-digests", 2) == 1 {
+		// an artifact recorded without any digest (a legal shape: "path": {})
+		return map[string]HashObj{vPick(tag+".name", "a", "b"): {}}
 	}
 	h := HashObj{vPick(tag+".alg", "sha256", "sha512"): vPick(tag+".hash", "11", "22")}
 	if vChoice(tag+".second-alg", 2) == 1 {
@@ -94,11 +99,13 @@ func (c *vhChain) agree() bool {
 	return true
 }
 
-// a = {#steps, #links per step}
+// a = {#steps, #links per step, 1: artifacts may carry an empty hash object}
 func vh_C05_reduce(a []int)      { vhC05(a, false) }
 func vh_C05_reduce_twin(a []int) { vhC05(a, true) }
 
 func vhC05(a []int, twin bool) {
+	vhArtsEmptyHash = len(a) > 2 && a[2] == 1
+	defer func() { vhArtsEmptyHash = false }()
 	c := vhBuildChain(a[0], a[1])
 	agree := c.agree()
 	reduced, err := ReduceStepsMetadata(c.layout, c.md)
